@@ -389,6 +389,6 @@ static inline void __verif_trap(void)
  * counterexample is a replayable script */
 #define ND(type) ((type)__verif_nd())
 #define ND_BOOL() ((_Bool)(__verif_nd() & 1))
-#define VERIF_GHOST_RESET() do { __verif_n = 0; __verif_crashed = 0; __verif_crash_is_bug = 0; __verif_last_load = 0; __verif_last_load_p = 0; __verif_last_load_mo = -1; } while (0)
+#define VERIF_GHOST_RESET() do { __verif_ptralt = 0; __verif_n = 0; __verif_crashed = 0; __verif_crash_is_bug = 0; __verif_last_load = 0; __verif_last_load_p = 0; __verif_last_load_mo = -1; } while (0)
 
 #endif /* __VERIF_MODEL_H__ */
